@@ -27,10 +27,11 @@ import lib
 
 PROP = "C18"
 MODEL_TARGETS = ["Model/Export.vo"]
-THEOREMS = ["C18_json_strict", "C18_json_values", "C18_csv_rows", "C18_excel_rows", "C18_df",
-            "C18_df_roundtrip", "C18_units_recognised", "C18_units_recognised_ascii_case",
-            "C18_units_conflict", "C18_units_unrecognised", "C18_units_table_current",
-            "C18_depth_consistent"]
+THEOREMS = ["C18_json_strict", "C18_json_values", "C18_json_value_map", "C18_csv_rows", "C18_csv_header",
+            "C18_excel_rows", "C18_df", "C18_df_roundtrip", "C18_df_roundtrip_norows", "C18_units_places",
+            "C18_units_recognised", "C18_units_recognised_all", "C18_units_table_disjoint", "C18_units_listed",
+            "C18_units_recognised_ascii_case", "C18_units_conflict",
+            "C18_units_unrecognised", "C18_units_table_current", "C18_depth_consistent"]
 ASSUMPTIONS = [
     "oracle: the json module serialises str/int/float/None/dict/list natively, sends other objects to "
     "JSONEncoder.default, writes a float with float.__repr__ and json.loads reads that text back as the same "
@@ -887,6 +888,12 @@ def evaluate(payload):
         obs, loaded = obs_xlsx(las)
         bad = oracle_xlsx(las, loaded) if loaded is not None else "to_excel raised %s" % obs
         return inp, obs, bad
+    if view in ("df", "rt"):
+        names = [c.mnemonic for c in las.curves]
+        if len(set(names)) != len(names):
+            # e.g. curves A, A:1, A -> session names A:1, A:1, A:2: C13's recorded finding (F10); a DataFrame
+            # with repeated column labels is outside this property's domain
+            raise Unsupported("session mnemonics of the curves are not pairwise distinct")
     if view == "df":
         return inp, obs_df(las), oracle_df(las)
     if view == "rt":
@@ -1388,9 +1395,9 @@ def gen_cases(ctx, rng=None, scale=1.0):
     """yields payloads"""
     rng = rng or ctx.rng
     th = ctx.thorough
-    n_build = int((900 if th else 110) * scale)
-    n_text = int((400 if th else 45) * scale)
-    n_xlsx = int((300 if th else 36) * scale)
+    n_build = int((1500 if th else 260) * scale)
+    n_text = int((600 if th else 110) * scale)
+    n_xlsx = int((400 if th else 60) * scale)
     # corpus: the defects of F13 and the fixed ones first
     corpus = [
         {"src": "build", "items": {}, "curves": []},                                       # empty file, default NaN STRT
